@@ -16,11 +16,13 @@ from concurrent.futures import ThreadPoolExecutor
 VERIF = os.path.dirname(os.path.dirname(os.path.abspath(__file__)))
 a = sys.argv[1:]
 jobs, only, checks = 4, None, True
+checks_only = False
 i = 0
 while i < len(a):
     if a[i] == "--jobs": jobs = int(a[i + 1]); i += 2
     elif a[i] == "--only": only = set(a[i + 1].split(",")); i += 2
     elif a[i] == "--no-checks": checks = False; i += 1
+    elif a[i] == "--checks-only": checks_only = True; i += 1
     else: i += 1
 
 def sh(cmd, cwd=None, timeout=3600):
@@ -32,6 +34,32 @@ ids = sorted(d for d in os.listdir(os.path.join(VERIF, "seeded")) if os.path.exi
 if only:
     ids = [x for x in ids if x in only]
 FLAKY = {"TestIntegration.TestIntegrate2DMC", "TestStatistics.TestMetropolis2D"}
+
+def worker_checks_only(slot_ids):
+    slot, my = slot_ids
+    out = {}
+    for sid in my:
+        d = os.path.join(VERIF, "seeded", sid)
+        mp = os.path.join(d, "meta.json")
+        m = json.load(open(mp))
+        prop = sid.split("-")[0]
+        rc, o = sh("python3 %s/selftest/mutant.py --patch %s/patch.diff --tier quick %s" % (VERIF, d, prop), timeout=7200)
+        ex = [l for l in o.splitlines() if l.startswith("==>")]
+        keys = [l.split("key=")[1].split(" ")[0] for l in o.splitlines() if l.strip().startswith("key=")]
+        rec = m.get("reconfirmed_on_head", {})
+        rec["check_exit"] = ex[-1].split()[-1] if ex else "?"
+        rec["violation_keys"] = keys[:6]
+        rec["check_rerun_on_repo_head"] = head[:7]
+        rec["ok"] = bool(rec.get("patch_applies") and rec.get("compiles") and rec.get("suite_passes_with_change") and rec.get("demo_exit_with_change") not in (0, None)
+                         and rec.get("demo_exit_unchanged") == 0 and rec.get("check_exit") == "1")
+        m["reconfirmed_on_head"] = rec
+        if rec["check_exit"] in ("0", "1"):
+            m.setdefault("checks_run", {})[prop] = {"exit": rec["check_exit"], "violation_keys": rec["violation_keys"]}
+            m["caught_by"] = [prop] if rec["check_exit"] == "1" else []
+        json.dump(m, open(mp, "w"), indent=1)
+        out[sid] = rec
+        print(sid, json.dumps(rec)[:300], flush=True)
+    return out
 
 def worker(slot_ids):
     slot, my = slot_ids
@@ -107,7 +135,7 @@ def worker(slot_ids):
 slots = [(k, ids[k::jobs]) for k in range(jobs)]
 with ThreadPoolExecutor(max_workers=jobs) as ex:
     res = {}
-    for r in ex.map(worker, slots):
+    for r in ex.map(worker_checks_only if checks_only else worker, slots):
         res.update(r)
 bad = [k for k, v in res.items() if not v["ok"]]
 print("RECONFIRM DONE: %d changes, %d not ok: %s" % (len(res), len(bad), bad))
